@@ -1,6 +1,7 @@
 package main
 
 import (
+	"os/exec"
 	"crypto/sha256"
 	"encoding/json"
 	"flag"
@@ -299,6 +300,7 @@ func verify(argv []string) int {
 	if *smtDir != "" {
 		replayDir = filepath.Join(*smtDir, "replay")
 	}
+	os.RemoveAll(replayDir)
 	for i, o := range obls {
 		r := results[i]
 		rep := OblReport{Name: o.Name, Kind: o.Kind, Status: r.Status, Solver: r.Solver, Seconds: r.Seconds, Clause: o.Src, All: r.All}
@@ -343,12 +345,39 @@ func verify(argv []string) int {
 			"property": *prop, "obligation": o.Name, "kind": o.Kind, "clause": o.Src, "function": o.Func,
 			"solver_status": r.Status, "solver": r.Solver, "all_solvers": r.All, "solver_output": r.Output, "smt_file": r.File,
 			"replayed": false,
-			"note":     "obligation discharged on the unchanged tree and fails on this tree; no automatic replay for this obligation kind",
+			"note":     "obligation discharged on the unchanged tree and fails on this tree",
+		}
+		reproduced := false
+		modelOut := r.Output
+		haveModel := r.Status == "sat"
+		if !haveModel && len(o.WitNames) > 0 && findReplayTemplate(*verif, o.Func) != nil {
+			// no model (quantified goal): look for a candidate in the quantifier-free
+			// weakening of the query; it only counts if it reproduces on the real code
+			if out, ok := groundCandidate(r.File); ok {
+				modelOut, haveModel = out, true
+				rj["candidate_from"] = "model of the quantifier-free weakening of the query (validated only by replay)"
+			}
+		}
+		if haveModel && len(o.WitNames) > 0 {
+			wit := parseWitness(modelOut, o.WitNames)
+			rj["witness"] = wit
+			if tpl := findReplayTemplate(*verif, o.Func); tpl != nil && len(wit) > 0 {
+				out, ok := runReplay(*verif, *repo, tpl, wit)
+				rj["replay_template"] = tpl
+				rj["replay_output"] = truncate(out, 6000)
+				rj["replayed"] = true
+				rj["reproduced_on_real_code"] = ok
+				reproduced = ok
+			}
 		}
 		b, _ := json.MarshalIndent(rj, "", " ")
 		os.WriteFile(rp, b, 0o644)
 		fmt.Printf("FAILED obligation %s status=%s solvers=%v\n", o.Name, r.Status, r.All)
-		fmt.Printf("VIOLATION property=%s replay=%s obligation=%s no-failing-input-found\n", *prop, rp, o.Name)
+		if reproduced {
+			fmt.Printf("VIOLATION property=%s replay=%s obligation=%s counterexample-replayed-on-real-code\n", *prop, rp, o.Name)
+		} else {
+			fmt.Printf("VIOLATION property=%s replay=%s obligation=%s no-failing-input-found\n", *prop, rp, o.Name)
+		}
 		reports = append(reports, rep)
 	}
 	wall := time.Since(start).Seconds()
@@ -445,4 +474,152 @@ func truncate(s string, n int) string {
 		return s[:n] + "..."
 	}
 	return s
+}
+
+// ---------------------------------------------------------------------------
+// counterexample replay
+
+type replayTemplate struct {
+	Match string `json:"match"` // substring of the function key
+	Pkg   string `json:"pkg"`   // package directory relative to the repository
+	File  string `json:"file"`  // in-package test file (under /verif/replay), injected with -overlay
+	Run   string `json:"run"`   // go test -run regex
+}
+
+func findReplayTemplate(verif, fn string) *replayTemplate {
+	b, err := os.ReadFile(filepath.Join(verif, "replay", "registry.json"))
+	if err != nil {
+		return nil
+	}
+	var ts []replayTemplate
+	if json.Unmarshal(b, &ts) != nil {
+		return nil
+	}
+	for i := range ts {
+		if strings.Contains(fn, ts[i].Match) {
+			return &ts[i]
+		}
+	}
+	return nil
+}
+
+// parseWitness reads the (get-value ...) answer that follows "sat".
+func parseWitness(out string, names []string) map[string]interface{} {
+	res := map[string]interface{}{}
+	i := strings.Index(out, "((")
+	if i < 0 {
+		return res
+	}
+	// split the top-level list into (term value) pairs
+	depth := 0
+	start := -1
+	var pairs []string
+	inq := false
+	for j := i; j < len(out); j++ {
+		c := out[j]
+		if c == '|' {
+			inq = !inq
+		}
+		if inq {
+			continue
+		}
+		if c == '(' {
+			depth++
+			if depth == 2 {
+				start = j
+			}
+		} else if c == ')' {
+			if depth == 2 && start >= 0 {
+				pairs = append(pairs, out[start:j+1])
+				start = -1
+			}
+			depth--
+			if depth == 0 {
+				break
+			}
+		}
+	}
+	for k, p := range pairs {
+		if k >= len(names) {
+			break
+		}
+		// (|wit:name@n| value)
+		q := strings.Index(p[1:], "| ")
+		if q < 0 {
+			continue
+		}
+		val := strings.TrimSpace(p[q+3 : len(p)-1])
+		res[names[k]] = smtValue(val)
+	}
+	return res
+}
+
+func smtValue(v string) interface{} {
+	v = strings.TrimSpace(v)
+	if v == "true" {
+		return true
+	}
+	if v == "false" {
+		return false
+	}
+	neg := false
+	w := v
+	if strings.HasPrefix(w, "(- ") && strings.HasSuffix(w, ")") {
+		neg = true
+		w = strings.TrimSpace(w[3 : len(w)-1])
+	}
+	if n, err := strconv.ParseInt(w, 10, 64); err == nil {
+		if neg {
+			n = -n
+		}
+		return n
+	}
+	return v
+}
+
+func runReplay(verif, repo string, tpl *replayTemplate, wit map[string]interface{}) (string, bool) {
+	wj, _ := json.Marshal(wit)
+	ovDir := filepath.Join(verif, "out", "tmp")
+	os.MkdirAll(ovDir, 0o755)
+	ov := filepath.Join(ovDir, fmt.Sprintf("replay_ov_%d.json", os.Getpid()))
+	file := tpl.File
+	if !filepath.IsAbs(file) {
+		file = filepath.Join(verif, file)
+	}
+	ovj, _ := json.Marshal(map[string]interface{}{"Replace": map[string]string{filepath.Join(repo, tpl.Pkg, filepath.Base(file)): file}})
+	os.WriteFile(ov, ovj, 0o644)
+	defer os.Remove(ov)
+	cmd := exec.Command("go", "test", "-overlay", ov, "-vet=off", "-count=1", "-timeout", "120s", "-run", tpl.Run, "-v", "./"+tpl.Pkg+"/")
+	cmd.Dir = repo
+	cmd.Env = append(os.Environ(), "GOFLAGS=-mod=mod", "GOPROXY=off", "GOSUMDB=off", "GOTOOLCHAIN=local", "REPLAY_WITNESS="+string(wj))
+	out, _ := cmd.CombinedOutput()
+	return string(out), strings.Contains(string(out), "REPRODUCED")
+}
+
+// groundCandidate drops the quantified assertions of a query and asks z3 for a model.
+func groundCandidate(file string) (string, bool) {
+	b, err := os.ReadFile(file)
+	if err != nil {
+		return "", false
+	}
+	var keep []string
+	for _, l := range strings.Split(string(b), "\n") {
+		if strings.HasPrefix(l, "(assert") && (strings.Contains(l, "(forall ") || strings.Contains(l, "(exists ")) && !strings.HasPrefix(l, "(assert (not (=>") {
+			continue
+		}
+		keep = append(keep, l)
+	}
+	g := file + ".ground.smt2"
+	os.WriteFile(g, []byte(strings.Join(keep, "\n")), 0o644)
+	out, _ := exec.Command("z3-new", "-T:10", g).CombinedOutput()
+	first := ""
+	for _, ln := range strings.Split(string(out), "\n") {
+		ln = strings.TrimSpace(ln)
+		if ln == "" || strings.HasPrefix(ln, "WARNING") {
+			continue
+		}
+		first = ln
+		break
+	}
+	return string(out), first == "sat"
 }
